@@ -30,7 +30,7 @@ def run(ctx):
         v = a["value"]
         if a["kind"] == "construct":
             return None
-        if fn.endswith("TransferInfo::done"):
+        if fn.endswith("TransferInfo::done") or prog.folded().get(TI + "::done") == fn:
             if not (v[0] == "bin" and v[1].startswith("Add") and show(v[3]) == "1" and "transfer_count" in show(v[2])):
                 return "in done the counter must be incremented by exactly 1, found %s" % show(v, 80)
         elif fn.endswith("TransferInfo::init"):
